@@ -279,6 +279,15 @@ def _owned_path(self, e: ast.AST, steps, fr: Frame, depth: int = 40, stack=()) -
     steps = list(steps)
     rec = lambda x, st, f=fr: _owned_path(self, x, st, f, depth - 1, stack)          # noqa: E731
     if isinstance(e, ast.Attribute):
+        r0 = _root(e)
+        if isinstance(r0, ast.Name) and r0.id == "self" and fr.fn is not None and fr.fn.name != "__init__" and fr.ci is not None \
+                and isinstance(e.value, ast.Name):
+            # `self.<attr>` itself: state of the object whose method this is (an accumulator the object keeps; whether it is reset is R3's business)
+            init_ = self.prog.find_method(fr.ci, "__init__")
+            if init_ is not None and any(isinstance(st, (ast.Assign, ast.AnnAssign)) and st.value is not None and isinstance(st.value, (ast.List, ast.Dict, ast.Set))
+                                         and any(unparse(t) == unparse(e) for t in (st.targets if isinstance(st, ast.Assign) else [st.target]))
+                                         for st in walk_no_nested(init_[1])):
+                return True, f"{unparse(e)} is a container the object created for itself"
         return rec(e.value, [("attr", e.attr)] + steps)
     if isinstance(e, ast.Subscript):
         if isinstance(e.slice, ast.Slice):
